@@ -27,22 +27,30 @@ package validitywindow
 //@   pure
 //@ func ExecutionBlock.Contains
 //@   pure
+// the chain index answers deterministically for a block id (blocks are immutable)
 //@ func ChainIndex.GetExecutionBlock
-//@   noframe
+//@   pure
+//@   opt ignore ctx
+// the k-th ancestor reached from b by following parent ids through the index
+//@ spec rec func ancAt(ci ChainIndex, b ExecutionBlock, k int) ExecutionBlock = ite(k <= 0, b, fst(ChainIndex.GetExecutionBlock(ci, Block.GetParent(ancAt(ci, b, k - 1)))))
+// the walk is allowed to look INTO ancestors 0..k: each is inside the window and above the accepted
+// tip, and each one's parent could be fetched
+//@ spec func walkOK(ci ChainIndex, b ExecutionBlock, k int, oldest int, tip int) bool = forall m int :: 0 <= m && m <= k ==> Block.GetTimestamp(ancAt(ci, b, m)) >= oldest && Block.GetHeight(ancAt(ci, b, m)) > tip && Block.GetHeight(ancAt(ci, b, m)) != 0 && (m < k ==> snd(ChainIndex.GetExecutionBlock(ci, Block.GetParent(ancAt(ci, b, m)))) == nil)
 //@ func (*TimeValidityWindow).calculateOldestAllowed
 //@   trusted
 //@   noframe
-// The ancestor walk (C09): a container that the FIRST ancestor handed in (the parent) already contains
-// is reported, provided that ancestor is inside the window and above the accepted tip (older
-// ancestors only ever add marks; the accepted boundary is answered by the seen-set).
+// The ancestor walk (C09): a container contained in ANY processing ancestor that the walk is allowed
+// to look into (inside the window, above the accepted tip, reachable through the index) is marked in
+// the result -- marks are never lost on the way, and the accepted boundary is answered by the seen-set.
 //@ func (*TimeValidityWindow).isRepeat props C09
 //@   noframe
-//@   loop 1 invariant ancestorBlk == old(ancestorBlk) || stop || (forall j int :: 0 <= j && j < len(containers) && ExecutionBlock.Contains(old(ancestorBlk), emap.Item.GetID(containers[j])) ==> bit(marker, j))
+//@   reveal ancAt walkOK
+//@   loop 1 invariant ancestorBlk == ancAt(v.chainIndex, old(ancestorBlk), iter1)
+//@   loop 1 invariant stop || (forall k int, j int :: 0 <= k && k < iter1 && 0 <= j && j < len(containers) && ExecutionBlock.Contains(ancAt(v.chainIndex, old(ancestorBlk), k), emap.Item.GetID(containers[j])) ==> bit(marker, j))
 //@   loop 2 invariant 0 <= idx2 && idx2 <= len(containers)
 //@   loop 2 invariant stop || (forall j int :: 0 <= j && j < idx2 && ExecutionBlock.Contains(ancestorBlk, emap.Item.GetID(containers[j])) ==> bit(marker, j))
 //@   loop 2 invariant forall j int :: bit(entry(2, marker), j) ==> bit(marker, j)
-//@   ensures result1 == nil && !stop && Block.GetTimestamp(ancestorBlk) >= oldestAllowed && Block.GetHeight(ancestorBlk) > v.lastAcceptedBlockHeight && Block.GetHeight(ancestorBlk) != 0 ==> forall j int :: 0 <= j && j < len(containers) && ExecutionBlock.Contains(ancestorBlk, emap.Item.GetID(containers[j])) ==> bit(result0, j)
-
+//@   ensures result1 == nil && !stop ==> forall k int, j int :: 0 <= k && walkOK(v.chainIndex, ancestorBlk, k, oldestAllowed, v.lastAcceptedBlockHeight) && 0 <= j && j < len(containers) && ExecutionBlock.Contains(ancAt(v.chainIndex, ancestorBlk, k), emap.Item.GetID(containers[j])) ==> bit(result0, j)
 // A block above the accepted tip passes replay protection only if no container id occurs twice IN
 // the block (C09: "nor twice in one block") and the ancestor walk reported no repeat.
 //@ func (*TimeValidityWindow).VerifyExpiryReplayProtection props C09
